@@ -290,7 +290,7 @@ func (p Point) MarshalBSON() ([]byte, error) {
 // UnmarshalJSON will unmarshal the GeoJSON Point geometry.
 func (p *Point) UnmarshalJSON(data []byte) error {
 	g := &Geometry{}
-	err := unmarshalJSON(data, &g)
+	err := unmarshalJSON(data, g)
 	if err != nil {
 		return err
 	}
@@ -307,7 +307,7 @@ func (p *Point) UnmarshalJSON(data []byte) error {
 // UnmarshalBSON will unmarshal GeoJSON Point geometry.
 func (p *Point) UnmarshalBSON(data []byte) error {
 	g := &Geometry{}
-	err := bson.Unmarshal(data, &g)
+	err := bson.Unmarshal(data, g)
 	if err != nil {
 		return err
 	}
@@ -342,7 +342,7 @@ func (mp MultiPoint) MarshalBSON() ([]byte, error) {
 // UnmarshalJSON will unmarshal the GeoJSON MultiPoint geometry.
 func (mp *MultiPoint) UnmarshalJSON(data []byte) error {
 	g := &Geometry{}
-	err := unmarshalJSON(data, &g)
+	err := unmarshalJSON(data, g)
 	if err != nil {
 		return err
 	}
@@ -359,7 +359,7 @@ func (mp *MultiPoint) UnmarshalJSON(data []byte) error {
 // UnmarshalBSON will unmarshal the GeoJSON MultiPoint geometry.
 func (mp *MultiPoint) UnmarshalBSON(data []byte) error {
 	g := &Geometry{}
-	err := bson.Unmarshal(data, &g)
+	err := bson.Unmarshal(data, g)
 	if err != nil {
 		return err
 	}
@@ -394,7 +394,7 @@ func (ls LineString) MarshalBSON() ([]byte, error) {
 // UnmarshalJSON will unmarshal the GeoJSON MultiPoint geometry.
 func (ls *LineString) UnmarshalJSON(data []byte) error {
 	g := &Geometry{}
-	err := unmarshalJSON(data, &g)
+	err := unmarshalJSON(data, g)
 	if err != nil {
 		return err
 	}
@@ -411,7 +411,7 @@ func (ls *LineString) UnmarshalJSON(data []byte) error {
 // UnmarshalBSON will unmarshal the GeoJSON MultiPoint geometry.
 func (ls *LineString) UnmarshalBSON(data []byte) error {
 	g := &Geometry{}
-	err := bson.Unmarshal(data, &g)
+	err := bson.Unmarshal(data, g)
 	if err != nil {
 		return err
 	}
@@ -446,7 +446,7 @@ func (mls MultiLineString) MarshalBSON() ([]byte, error) {
 // UnmarshalJSON will unmarshal the GeoJSON MultiPoint geometry.
 func (mls *MultiLineString) UnmarshalJSON(data []byte) error {
 	g := &Geometry{}
-	err := unmarshalJSON(data, &g)
+	err := unmarshalJSON(data, g)
 	if err != nil {
 		return err
 	}
@@ -463,7 +463,7 @@ func (mls *MultiLineString) UnmarshalJSON(data []byte) error {
 // UnmarshalBSON will unmarshal the GeoJSON MultiPoint geometry.
 func (mls *MultiLineString) UnmarshalBSON(data []byte) error {
 	g := &Geometry{}
-	err := bson.Unmarshal(data, &g)
+	err := bson.Unmarshal(data, g)
 	if err != nil {
 		return err
 	}
@@ -498,7 +498,7 @@ func (p Polygon) MarshalBSON() ([]byte, error) {
 // UnmarshalJSON will unmarshal the GeoJSON Polygon geometry.
 func (p *Polygon) UnmarshalJSON(data []byte) error {
 	g := &Geometry{}
-	err := unmarshalJSON(data, &g)
+	err := unmarshalJSON(data, g)
 	if err != nil {
 		return err
 	}
@@ -515,7 +515,7 @@ func (p *Polygon) UnmarshalJSON(data []byte) error {
 // UnmarshalBSON will unmarshal the GeoJSON Polygon geometry.
 func (p *Polygon) UnmarshalBSON(data []byte) error {
 	g := &Geometry{}
-	err := bson.Unmarshal(data, &g)
+	err := bson.Unmarshal(data, g)
 	if err != nil {
 		return err
 	}
@@ -550,7 +550,7 @@ func (mp MultiPolygon) MarshalBSON() ([]byte, error) {
 // UnmarshalJSON will unmarshal the GeoJSON MultiPolygon geometry.
 func (mp *MultiPolygon) UnmarshalJSON(data []byte) error {
 	g := &Geometry{}
-	err := unmarshalJSON(data, &g)
+	err := unmarshalJSON(data, g)
 	if err != nil {
 		return err
 	}
@@ -567,7 +567,7 @@ func (mp *MultiPolygon) UnmarshalJSON(data []byte) error {
 // UnmarshalBSON will unmarshal the GeoJSON MultiPolygon geometry.
 func (mp *MultiPolygon) UnmarshalBSON(data []byte) error {
 	g := &Geometry{}
-	err := bson.Unmarshal(data, &g)
+	err := bson.Unmarshal(data, g)
 	if err != nil {
 		return err
 	}
